@@ -51,6 +51,28 @@ def run(ck, facts):
                 scr = n["recv"]
             if scr is not None and any((x.get("k") == "field" and x.get("n") == "param_self") or (x.get("k") == "local" and x.get("n") in ("self_type", "self_param", "param_self")) for x in C.walk(scr)):
                 self_visit += [v for v in visits if any(v is x for x in C.walk(n)) and v not in self_visit]
+        # when the receiver is dispatched by kind (`match self_type { Some(SelfType::Opaque(..)) => .., Some(SelfType::Struct(..)) => .. }`),
+        # every lifetime-carrying kind (opaque, struct) must visit it
+        for n in C.walk(body):
+            if n.get("k") != "match" or not any((x.get("k") == "local" and x.get("n") in ("self_type", "self_param", "param_self")) or (x.get("k") == "field" and x.get("n") == "param_self") for x in C.walk(n["s"])):
+                continue
+            kinds_seen = {}
+            for arm in n["arms"]:
+                vs = set()
+
+                def pv(p_):
+                    if isinstance(p_, dict):
+                        if p_.get("v") and "SelfType" in (p_.get("adt") or p_.get("v") or ""):
+                            vs.add(p_["v"].split("::")[-1])
+                        for q in (p_.get("alts") or []) + ([p_["sub"]] if isinstance(p_.get("sub"), dict) else (p_.get("sub") or [] if isinstance(p_.get("sub"), list) else [])):
+                            pv(q.get("p") if isinstance(q, dict) and "p" in q and "k" not in q else q)
+                pv(arm["pat"])
+                for v_ in vs:
+                    kinds_seen[v_] = any(x.get("k") == "mcall" and x.get("m") == "visit_param" for x in C.walk(arm["b"]))
+            need = {k_: v_ for k_, v_ in kinds_seen.items() if k_ in ("Opaque", "Struct")}
+            if need and any(kinds_seen.values()):   # this match is where the receiver gets visited
+                ck.expect(all(need.values()), "R1", label + "/visits-self-per-kind", str(need),
+                          "the receiver is dispatched by kind but only %s visit it (%s): a value returned by a method of the other kind that borrows from `self` gets no edge" % ([k_ for k_, v_ in need.items() if v_], need), C.loc(f, n.get("ln")))
         # param visit inside a loop over method.params
         fdefs = flow.defs_of(f)
         KEEP_ALL = {"iter", "collect", "clone", "to_vec", "into_iter", "sort", "sort_by", "sort_by_key", "sort_unstable", "sort_unstable_by_key", "rev", "copied", "cloned",
@@ -367,3 +389,31 @@ def run(ck, facts):
                               "a use-site lifetime is looked up in the struct's definition environment", C.loc(f, x.get("ln")))
     if n6 < 4:
         ck.bad("R6", "floor", "only %d branded fmt_lifetime calls found (4 counted: dart and js, def and use)" % n6)
+
+    # ---------------- R3 (cont.) worklist loops of the outlives closure run until the queue is empty
+    nwl = 0
+    for f in core.fn_list:
+        if "hir" not in f or "::hir::lifetimes" not in f["path"] and "::hir::methods" not in f["path"]:
+            continue
+        for lp in C.walk(C.fn_body(f)):
+            if lp.get("k") != "loop":
+                continue
+            blk = C.strip(lp.get("body") or lp.get("b") or (list(C.children(lp)) or [{}])[0])
+            items = (blk.get("s") or []) + ([blk["e"]] if blk.get("e") else []) if blk.get("k") == "block" else [blk]
+            top = C.strip(items[0]) if items else {}
+            if top.get("k") != "if":
+                continue
+            cond = C.strip(top["c"])
+            if not (cond.get("k") == "let" and any(y.get("k") == "mcall" and y.get("m") in ("pop", "pop_front", "pop_back") for y in C.walk(cond.get("init") or cond.get("e") or {}))):
+                continue
+            nwl += 1
+            brk = [y for y in C.walk(top["t"]) if y.get("k") == "break"]
+            ck.expect(not brk, "R3", "%s/worklist-runs-until-empty" % C.norm_path(f["path"]).split("::")[-2], "no break while the queue is non-empty",
+                      "the worklist loop of %s stops (`break`) while lifetimes are still queued: the set of longer lifetimes is truncated, so a parameter that the return value may borrow from gets no edge"
+                      % C.norm_path(f["path"]).split("::", 1)[1], C.loc(f, lp.get("ln")))
+    if nwl < 1:
+        ck.bad("R3", "worklist-floor", "no worklist loop (`while let Some(x) = queue.pop()`) found in hir::lifetimes (1 counted: LifetimeTransitivityIterator::next)")
+    # an optional slice field must be allocated in the arena of the lifetime it borrows for, like a plain slice field (rule of C15.R6 on Dart's allocator lookups)
+    import c15
+    sub = C.SubCheck(ck, "R1", "", ["R6"], key_re=r"dart::alloc_name")
+    c15.run(sub, facts)
